@@ -42,7 +42,8 @@ RULE = ("60% window histories: size 1-50 (mostly 1-6), interval in {1,7,100,250m
         "SheddingHandler with RecoverHandler inside / without it, over a recording shedder: 15% scripted drops; outcomes ok, "
         "status.Error(0..16), context.DeadlineExceeded, wrapped deadline, panic(string|error|DeadlineExceeded); shapes "
         "WriteHeader(c), bare Write, nothing, WriteHeader+Write+Flush+Write, panic, Write-then-panic); "
-        "non-trivial = window: a Reduce after an Add and an advance >= interval; shedder: at least one Pass and one drop "
+        "4 (thorough 40) shedding-statistics streams over 2-6 scripted reporting ticks (SheddingStat.loop on a driver channel, the "
+        "logged line captured through a logx writer); non-trivial = window: a Reduce after an Add and an advance >= interval; shedder: at least one Pass and one drop "
         "or overload reading; distinct = distinct canonical case JSON")
 TRUSTED = ["float64 arithmetic of the Go build (amd64, no FMA contraction) = IEEE-754 binary64 = Coq PrimFloat; "
            "bucket sums are integers < 2^53 (exact in float64) and are modelled in Z",
@@ -151,9 +152,26 @@ def gen_integration(rng):
     return c
 
 
+def gen_stat(rng):
+    """shedding statistics over 2-6 reporting ticks: requests counted total-then-pass/drop, some still open at a tick"""
+    ops = []
+    for _ in range(rng.randint(2, 6)):
+        for _ in range(rng.randint(0, 30)):
+            ops.append(0)
+            x = rng.random()
+            if x < 0.6:
+                ops.append(1)
+            elif x < 0.85:
+                ops.append(2)
+        ops.append(3)
+    if rng.random() < 0.3:
+        ops.append(3)
+    return {"kind": "t", "ops": ops}
+
+
 def generate(rng, tier, n):
-    cases = []
-    for _ in range(n):
+    cases = [gen_stat(rng) for _ in range(4 if tier != "thorough" else 40)]
+    for _ in range(n - len(cases)):
         if rng.random() < 0.12:
             cases.append(gen_integration(rng))
         elif rng.random() < 0.6:
@@ -173,7 +191,7 @@ def drive(cases, tier):
     obs = [None] * len(cases)
     for kind, pkg, run in (("w", "./lib/collection", "^TestVerifDriverRW$"), ("s", "./lib/load", "^TestVerifDriver$"),
                            ("ir", "./rpc/internal/serverinterceptors", "^TestVerifDriverC09$"),
-                           ("ih", "./api/handler", "^TestVerifDriverC09$")):
+                           ("ih", "./api/handler", "^TestVerifDriverC09$"), ("t", "./lib/load", "^TestVerifDriverStat$")):
         idx = [i for i, c in enumerate(cases)
                if c["kind"] == kind or (c["kind"] == "i" and kind == ("ih" if c["http"] else "ir"))]
         if not idx:
@@ -192,6 +210,8 @@ def _bucket(b):
 
 
 def encode(case, obs):
+    if case["kind"] == "t":
+        return "TCase %s %s" % (clist([cnat(o) for o in case["ops"]]), clist([clist([cZ(v) for v in r]) for r in obs.get("ticks", [])]))
     if case["kind"] == "i":
         calls = [cpair(cbool(c[0] == 1), cnat(c[1]), cZ(c[2])) for c in case["calls"]]
         rows = [clist([cZ(v) for v in r]) for r in obs.get("rows", [])]
@@ -229,6 +249,8 @@ def encode(case, obs):
 
 
 def nontrivial(case, obs):
+    if case["kind"] == "t":
+        return len(obs.get("ticks", [])) >= 2 and any(r[0] > 0 for r in obs.get("ticks", []))
     if case["kind"] == "i":
         return any(c[0] == 0 and c[1] >= 4 for c in case["calls"]) and any(c[0] == 1 for c in case["calls"])
     if case["kind"] == "w":
@@ -250,6 +272,8 @@ def nontrivial(case, obs):
 
 def bucket(case, obs):
     out = ["kind:" + case["kind"]]
+    if case["kind"] == "t":
+        return out + ["stat:ticks=%d" % len(obs.get("ticks", []))]
     if case["kind"] == "i":
         out[0] = "kind:i-" + ("http" + ("+recover" if case.get("guard") else "-bare") if case["http"] else "rpc")
         for c in case["calls"]:
@@ -285,6 +309,9 @@ def bucket(case, obs):
 
 
 def explain(case, obs):
+    if case["kind"] == "t":
+        return ("shedding statistics: a reporting tick did not log exactly the total / pass / drop increments of its own interval "
+                "(counted twice across ticks, or lost) (C09.Exec.t_spec)")
     if case["kind"] == "i":
         return ("the shedding handler/interceptor did not report exactly once for a request it let in (in-flight != 0 after "
                 "the call, or passes + fails != let in), or reported Fail/Pass against its documented classes, or a panic "
